@@ -10,6 +10,10 @@ def unwrapperComponent : Component where
   step := fun s ts =>
     match ts with
     | ["new"] => (none, [])
+    | ["set", n] =>
+      match n.toNat? with
+      | some v => (some (v : Int), [])
+      | none => (s, ["bad-op"])
     | ["u", n] =>
       match n.toNat? with
       | some i => if i < 65536 then let (s', r) := unwrap s i; (s', [toString r]) else (s, ["bad-op"])
